@@ -14,7 +14,7 @@ structure Inv (p : Params) (s : State) : Prop where
   uniq : ∀ i j t, tokOf (s.cl i) = some t → tokOf (s.cl j) = some t → i = j
   valBelow : ∀ t e, s.val = some (t, e) → t < s.nextTok
   tryingNoKey : ∀ i m t na dl, s.cl i = .trying m t na dl → ∀ e, s.val ≠ some (t, e)
-  tryOnce : ∀ i t na dl, s.cl i = .trying .try t na dl → dl = na + p.ttl
+  tryOnce : ∀ i t na dl, s.cl i = .trying .try t na dl → dl = na + p.wait
 
 /-- a holder's key is present, carries its token and is unexpired (needs WithinLease) -/
 def HolderLive (s : State) : Prop :=
@@ -44,7 +44,7 @@ theorem inv_setCl_sub {p : Params} {s : State} (h : Inv p s) (i : Nat) (ph : Pha
     (hp : ∀ t, tokOf ph = some t → tokOf (s.cl i) = some t)
     (hval : ∀ t e, val = some (t, e) → t < s.nextTok)
     (htk : ∀ j m t na dl, (if j = i then ph else s.cl j) = .trying m t na dl → ∀ e, val ≠ some (t, e))
-    (htry : ∀ t na dl, ph = .trying .try t na dl → dl = na + p.ttl) :
+    (htry : ∀ t na dl, ph = .trying .try t na dl → dl = na + p.wait) :
     Inv p { setCl s i ph with val := val } := by
   constructor
   · intro j t hj
@@ -137,7 +137,7 @@ theorem inv_step {p : Params} {s s' : State} (h : Inv p s) (st : Step p s s') : 
               · exact h.tryingNoKey j m' t na dl hj e hv)
           (by intro t na dl hc; cases hc)
         exact this
-  | giveup i tok nextAt deadline hi hdl =>
+  | giveup i m tok nextAt deadline hi hdl =>
     have := inv_setCl_sub h i .failed s.val (by intro t ht; cases ht) h.valBelow
       (by intro j m' t na dl hj e hv
           split at hj
@@ -215,7 +215,7 @@ theorem holderLive_step {p : Params} (hp : 0 < p.ttl) {s s' : State} (hinv : Inv
         split at hj
         · cases hj
         · exact h j tok' hj
-  | giveup i tok nextAt deadline hi hdl =>
+  | giveup i m tok nextAt deadline hi hdl =>
     intro j tok' hj
     simp only [setCl] at hj ⊢
     split at hj
@@ -273,7 +273,7 @@ theorem ctx_never_cancelled {p : Params} {s : State} (h : Reach p s) : ∀ i, s.
       cases alive _ with
       | none => exact ih j
       | some v => cases m <;> exact ih j
-    | giveup i tok nextAt deadline hi hdl => exact ih
+    | giveup i m tok nextAt deadline hi hdl => exact ih
     | release i tok hi =>
       intro j; unfold release
       cases alive _ with
